@@ -167,3 +167,22 @@ Theorem S_init_is_source :
 Proof. exact init_is_source. Qed.
 Print Assumptions S_init_is_source.
 
+
+Theorem S_world_operations_are_source :
+  forall (NN : Num) (w : world NN) (idx : nat) (h : handle NN) (step g : carrier NN), nth_error
+    (w_handles NN w) idx = Some h -> w_set_sampled NN w idx step g = (let '(old', v') :=
+    gen_set_sampled NN (h_min NN h) (h_max NN h) (h_old NN h) (get_cell NN (w_params NN w)
+    (h_cell NN h)) step g in Some {| w_params := set_nth (w_params NN w) (h_cell NN h) v';
+    w_handles := set_nth (w_handles NN w) idx (with_old NN h old'); w_calls := w_calls NN w |})
+    /\ w_reset NN w idx = (let '(_, v') := gen_reset_value NN (h_old NN h) (get_cell NN
+    (w_params NN w) (h_cell NN h)) in Some {| w_params := set_nth (w_params NN w) (h_cell NN h)
+    v'; w_handles := w_handles NN w; w_calls := w_calls NN w |}).
+Proof. exact world_operations_are_source. Qed.
+Print Assumptions S_world_operations_are_source.
+
+Theorem S_build_is_source :
+  forall (NN : Num) (fpow : carrier NN -> carrier NN -> carrier NN) (b : builder NN), gen_build
+    NN fpow b = build NN fpow b.
+Proof. exact build_is_source. Qed.
+Print Assumptions S_build_is_source.
+
